@@ -18,6 +18,7 @@
     does the same and `ListSizeBetween(n, n).generate` trips its own `assert len(li) == size`.
 -/
 import GEVerif.Lemmas.WellTyped
+import GEVerif.Lemmas.StackMachine
 
 namespace GEVerif.C02
 open GEVerif GEVerif.WellTyped
@@ -167,5 +168,45 @@ example : ∃ v s', createNode exGWT ⟨.grow, 3⟩ 5 (.ann .int (.depIntRangeLo
 -- a refined field of the example grammar: `Vec.xs` at position 1 depends on `Vec.n`
 example : (exGWT.cls 3).fields[1]? = some ("xs", .ann (.list (.cls 0)) (.depListSize "n")) := rfl
 example : siblings (exGWT.cls 3).fields [.int 2, .list 0 0 [], .tuple [], .str "a"] 1 = [("n", .int 2)] := rfl
+
+/-! ### The stack machine violates refinements
+
+`create_tree_using_stacks` builds the value of a refined symbol `Annotated[base, mh]` by calling
+`base()` and never consults `mh`.  Machine-checked counterpart of the open finding
+`Stack.genotype_to_phenotype / refinement-violated`. -/
+
+open GEVerif.StackLemmas in
+/-- For `Root(x: Annotated[int, IntRange(2, 4)])` and the genotype `[0, 200000, 0]` the stack
+machine returns `Root(0)`: the refined field holds `0 ∉ [2, 4]`, the program is ill-typed for the
+grammar — and well-typed for it once the refinement is erased (`C01_mapStack_wt_erased`): the
+refinement is the only thing wrong with it. -/
+theorem C02_stack_refinement_witness :
+    (stackRefG.cls 0).fields = [("x", .ann .int (.intRange 2 4))] ∧
+    Stack.mapStack stackRefG stackRefOrder 100 10 [0, 200000, 0] =
+      .ok (.node 0 0 0 [.int 0]) { src := .gene { dna := [0, 200000, 0], index := 2 } } ∧
+    sat (.intRange 2 4) [] (.int 0) = false ∧
+    wt stackRefG [] (.cls stackRefG.spec.start) (.node 0 0 0 [.int 0]) = false ∧
+    wt (stripG stackRefG) [] (.cls stackRefG.spec.start) (.node 0 0 0 [.int 0]) = true := by
+  have hrun : Stack.mapStack stackRefG stackRefOrder 100 10 [0, 200000, 0] =
+      .ok (.node 0 0 0 [.int 0]) { src := .gene { dna := [0, 200000, 0], index := 2 } } := by rfl
+  refine ⟨by rfl, hrun, by decide, ?_, ?_⟩
+  · have hf : (stackRefG.cls 0).fields = [("x", .ann .int (.intRange 2 4))] := by rfl
+    have hs : stackRefG.spec.start = 0 := rfl
+    rw [hs, wt]
+    simp only [hf]
+    simp [wtFields, wt, sat]
+  · exact mapStack_wtS stackRefG (GWF_of_grammarWF _ (by decide)).alts stackRefOrder (by decide)
+      (by decide) _ _ _ _ _ hrun
+
+open GEVerif.StackLemmas in
+/-- the same through `C02_program_refinements_start`: in a well-typed program the field `x` would
+satisfy its refinement -/
+example : ¬ wt stackRefG [] (.cls stackRefG.spec.start) (.node 0 0 0 [.int 0]) = true := by
+  intro hw
+  obtain ⟨a, ha, hsat⟩ := C02_program_refinements_start stackRefG _ hw 0 0 0 [.int 0]
+    (by simp [Val.subvalues]) 0 "x" .int (.intRange 2 4) (by rfl)
+  simp only [List.getElem?_cons_zero, Option.some.injEq] at ha
+  subst ha
+  simp [sat] at hsat
 
 end GEVerif.C02
